@@ -37,6 +37,7 @@ class Monitor(object):
         self.became_leader_at = {}
         self.prev_members = {}
         self.retired = set()      # members whose removal is committed: shutting them down loses nothing
+        self.ever_removed = set() # addresses whose removal was committed at some time (re-use = KF-C10-1)
         self.after_memory_loss = []
         self.step = -1
         self.cmd_at = {}            # idx -> command bytes applied there (first applier defines it)
@@ -132,6 +133,8 @@ class Monitor(object):
         # safety records of the same trace; before that trigger nothing is excused
         if finding is None and 'kf_c07_1' in self.trigger and prop in ('C01', 'C02', 'C03', 'C04', 'C10'):
             finding = 'KF-C07-1'
+        if finding is None and 'kf_c10_1' in self.trigger and prop in ('C01', 'C02', 'C03', 'C04', 'C10'):
+            finding = 'KF-C10-1'       # a re-used address: stale member tables + a member set replayed from a log prefix
         if finding is None and any(k.startswith('kf_c08_1') for k in self.trigger) and prop in ('C01', 'C02', 'C03', 'C04'):
             finding = 'KF-C08-1'       # acknowledged entries were lost by a kill inside the journal head drop
         if finding is not None:
@@ -201,6 +204,10 @@ class Monitor(object):
                 self.trigger.setdefault('memory_loss', self.step)
             return
         if k == 'restart':
+            if ev[1] in self.ever_removed and ev[1] < RO_BASE and not self.journaled:
+                # an address that was a member before comes back as a fresh, empty process (allowed by the operator
+                # discipline of C10): known finding KF-C10-1 - from here on cluster-wide safety records are its symptoms
+                self.trigger.setdefault('kf_c10_1', self.step)
             self.down_logs.pop(ev[1], None)
             self.prev.pop(ev[1], None)
             self.prev_log.pop(ev[1], None)
@@ -267,6 +274,16 @@ class Monitor(object):
                              % (idx, self.committed[idx][1], e[2]))
                 first_report = idx not in self.committed
                 self.committed.setdefault(idx, (e[0], e[2]))
+                if first_report:
+                    kind_, a_, b_ = sim.cid_of_command(e[0])
+                    if kind_ == 2:
+                        # operator discipline of C10: a member whose removal is committed is shut down (that kill loses
+                        # nothing the cluster relies on); it may come back later as a fresh, empty process
+                        if a_ == 1:
+                            self.retired.discard(b_)
+                        else:
+                            self.retired.add(b_)
+                            self.ever_removed.add(b_)
                 self.committed_in_term.setdefault(idx, g(o, 'raftCurrentTerm'))
                 # with dynamic membership only the first report of a position is held against the voters' logs:
                 # members removed (and shut down) since then legitimately shrink the set of holders
@@ -452,13 +469,15 @@ class Monitor(object):
                     if kind == 2 and g(o, 'raftState') == 2 and e[2] == g(o, 'raftCurrentTerm'):
                         # the gate, at the leader that appended it
                         pend = [x for x in log if x[1] < e[1] and x[1] > applied and sim.cid_of_command(x[0])[0] == 2]
-                        noop = g(o, 'noopIDx')
                         if pend:
                             self.rec('C10', 'leader %d accepted membership change at position %d while the change at position %d is not yet applied'
                                      % (nid, e[1], pend[0][1]))
-                        if noop is not None and applied < noop and e[1] > noop:
-                            self.rec('C10', 'leader %d accepted membership change at position %d before committing an entry of its own term'
-                                     % (nid, e[1]))
+                        # decided from the log, the term and the commit index alone (not from the implementation's own
+                        # gate marker): some entry of the leader's term lies at or below its commit index
+                        commit_ = g(o, 'raftCommitIndex')
+                        if not any(x[2] == e[2] and x[1] <= commit_ for x in log if x[1] < e[1]):
+                            self.rec('C10', 'leader %d accepted membership change at position %d before committing an entry of its own term %d (commit index %d)'
+                                     % (nid, e[1], e[2], commit_))
                 self.shadow[nid] = sh
                 if sh != actual:
                     self.rec('C10', 'node %d: member set %r differs from the set defined by the membership commands in its log %r'
@@ -513,6 +532,21 @@ class Monitor(object):
             hq = None
         if hq is not None and hq != want and set(SIM.nid_of(x) for x in g(o, 'connectedNodes')) & others == conn:
             self.rec('C20', 'node %d: hasQuorum is %r but it is connected to %d of %d other voters' % (nid, hq, len(conn), len(others)))
+        # what the node REPORTS is what it is: _isLeader() and getStatus() are the indicators an application reads
+        import pysyncobj.syncobj as S_
+        saved = S_.monotonicTime
+        S_.monotonicTime = lambda: 0          # getStatus reads the clock for 'uptime': not a read of the schedule
+        try:
+            st, il = o.getStatus(), o._isLeader()
+        except Exception:
+            st, il = None, None
+        finally:
+            S_.monotonicTime = saved
+        if st is not None:
+            if st.get('state') != role or il != (role == 2):
+                self.rec('C20', 'node %d is in state %d but reports state %r / _isLeader() = %r' % (nid, role, st.get('state'), il))
+            if hq is not None and st.get('has_quorum') != hq:
+                self.rec('C20', 'node %d: getStatus reports has_quorum = %r, hasQuorum is %r' % (nid, st.get('has_quorum'), hq))
 
 
     def note_acks(self, sim, nid, o):
